@@ -426,7 +426,7 @@ func checkLU(c luCase) *vk.Failure {
 }
 
 func TestLU(t *testing.T) {
-	vk.Run(t, "lu", vk.Opts{Quick: 1400, Thorough: 40000}, drawLU, checkLU)
+	vk.Run(t, "lu", vk.Opts{Quick: 4000, Thorough: 120000}, drawLU, checkLU)
 }
 
 var _ = fmt.Sprint
